@@ -147,6 +147,7 @@ type Pool struct {
 	SolverQ    map[string]int
 	SolverS    map[string]float64
 	SolverU    map[string]int
+	fresh      []task
 	nonterm    int
 	violations int
 	// broken code can make exploration explode: once a violation is known the rest of the plan gets
@@ -190,7 +191,7 @@ func (pl *Pool) RunAll(runs []*HarnessRun) {
 		r.Reached = map[string]int{}
 		r.Funcs = map[string]bool{}
 		r.start = time.Now()
-		pl.stack = append(pl.stack, task{run: r})
+		pl.fresh = append(pl.fresh, task{run: r}) // taken before continuations: every run starts early
 	}
 	var wg sync.WaitGroup
 	for i := 0; i < pl.cfg.Workers; i++ {
@@ -218,16 +219,24 @@ func (w *Worker) loop() {
 	pl := w.pool
 	for {
 		pl.mu.Lock()
-		for len(pl.stack) == 0 && pl.active > 0 {
+		for len(pl.stack) == 0 && len(pl.fresh) == 0 && pl.active > 0 {
 			pl.cond.Wait()
 		}
-		if len(pl.stack) == 0 {
+		if len(pl.stack) == 0 && len(pl.fresh) == 0 {
 			pl.mu.Unlock()
 			pl.cond.Broadcast()
 			return
 		}
-		t := pl.stack[len(pl.stack)-1]
-		pl.stack = pl.stack[:len(pl.stack)-1]
+		var t task
+		if n := len(pl.fresh); n > 0 {
+			// first paths of runs not started yet come first, so that an exploding run cannot
+			// starve the others (and a violation elsewhere is found while it explodes)
+			t = pl.fresh[n-1]
+			pl.fresh = pl.fresh[:n-1]
+		} else {
+			t = pl.stack[len(pl.stack)-1]
+			pl.stack = pl.stack[:len(pl.stack)-1]
+		}
 		pl.active++
 		pl.mu.Unlock()
 
